@@ -338,7 +338,7 @@ func ruleHappensBeforeByClose(c *Ctx, rule string) {
 			if a.Write {
 				nW++
 				writers = append(writers, a.Fn)
-				cls := closesOfField(a.Fn, sig)
+				cls := closesOfField(regionRoot(a.Fn), sig) // the writer may be a helper of the function that closes
 				ok := len(cls) >= 1
 				for _, cl := range cls {
 					if reaches(cl, a.Instr) {
